@@ -46,6 +46,10 @@ CHECKS = {
                 technique="runtime monitoring over a bounded-exhaustive configuration matrix: dial log of hook H1 plus the request bytes received by the peer (decrypted by a live TLS server behind the scripted CONNECT reply for tunnelled rows), reference decision function as oracle",
                 text="All 27 648 combinations of scheme, host kind (domain/IDN/IPv4/IPv6), port form, path, query, fragment, URL userinfo, proxy kind, proxy userinfo/port and caller-set Host are sent; the address handed to the connector and the request target / Host field seen by the peer must equal what the reference function derives from the statement.",
                 note="The quick tier runs a stride of the tunnelled rows (each needs a TLS handshake), the thorough tier all of them. The Host field of proxied plain-http requests is recorded, not judged."),
+    "C09": dict(cat="exploration", design="DESIGN.md §3 C09",
+                technique="runtime monitoring of request histories: the harness plays the whole web through reactive scripted transports; the walk observed (address dialled + request target per hop) is compared with a simulation of the same table using the harness's own RFC 3986 resolver",
+                text="Generated redirect webs (chains, trees, cycles; all 3xx codes; every Location form incl. missing, unusable and non-http) are walked by send() under max_redirections {0,1,2,5,7} and follow on/off; the observed request sequence, the error raised at the bound, the set of followed statuses and Response::url/status must equal the reference walk, including the exhaustive chain-length x max boundary table.",
+                note="Judged on the subset of reference syntax where RFC 3986 and the WHATWG URL standard agree; the rest is executed and only its prefix judged."),
 }
 
 NOT_APPLICABLE = {}
